@@ -74,6 +74,11 @@ CLAIMS = {
    note="Trusted: process creation replaced by recording fakes in the simulated Group runs; ambiguous joins are outside the domain. Known findings: key named 'env', concurrent id collision leaves a process.",
    technique="TLA+ parser spec model-checked with TLC over bounded key/value lists; recorded XSpec results and Group event traces (deterministic simulator with line-level preemption + real gateways) validated by TLC",
    ref="5/C20"),
+ "C17": dict(
+   text="spec/RSync.tla transcribes the receiver's decision at a path as a function of (source entry, prior target entry, delete, cwd) and states Want (what the statement demands) next to it; TLC checks target = source, that the two accepted limitations are exactly characterised, and minimality (a second sync transfers nothing and changes nothing) for all 86400 cases of the pair-complete instance (24 files x modes x mtimes, 5 link kinds, absent, directories), and kills the two pre-fix designs (mode | 0o700 on files, cwd-relative link classification). The case space is materialised on disk and synced by the real RSync through a real popen gateway (kind-changing pairs + sample in quick, all 14400 pairs in thorough), each with a re-sync, plus generated trees with several targets and modify-then-resync; TLC judges every recorded outcome (spec/RSyncCases.tla).",
+   note="Run as root (no permission-denied paths); timestamps of directories and of symlinks themselves not compared; known findings: directory mode | 0o700, same-size-same-mtime quick check.",
+   technique="TLA+ decision-table model of the rsync receiver model-checked with TLC over the full pair-complete case space (incl. 2 mutants); cases replayed on the real RSync over a real gateway; outcomes validated by TLC",
+   ref="5/C17"),
 }
 
 NOT_YET = {}
